@@ -122,6 +122,11 @@ class SimProcess:
             chk.out = None
         sim.child_stdout, sim.child_stderr = out.getvalue(), err.getvalue()
         sim.child_prints = chk.prints_done
+        if sim.page_loads_during_run:
+            # other browser tabs load the page while this request is blocked in join()
+            n_, sim.page_loads_during_run = sim.page_loads_during_run, 0
+            for _ in range(n_):
+                sim.app.index()
         if self.outcome == "killed" and user_at is not None and kill_at == user_at:
             # the user's /kill request lands now, through the real handler, while execute() is blocked in join
             sim.deliver_user_kill()
@@ -162,6 +167,7 @@ class SimMP:
         self.child_stdout = self.child_stderr = ""
         self.child_prints = 0
         self.user_kill_delivered = False
+        self.page_loads_during_run = 0
         self.app = None
         self.session = None
 
@@ -218,41 +224,68 @@ def run_case(chk, fa, case):
     phase = ["fault-free"]
 
     def fail(clause, detail):
+        fa.sessions.clear()
+        fa.terminated.clear()
         sig = f"{clause}:flask-{phase[0]}"
         log.append(dict(violation=sig, detail=detail))
         return dict(verdict=VIOLATION, sig=sig, detail=f"[flask] program={text!r} flags={flags!r} inputs={inputs}: {detail}",
                     log=log, steps=sim.child_steps, cov=sorted(cov), faults=faults, hist=hist)
 
-    def request(speed, user_kill_at, tflag=""):
+    tab = {"session": None}
+
+    def request(speed, user_kill_at, tflag="", same_tab=False, page_loads=0, late_kill_first=False):
         world.World(inputs=[])  # reset seams
         world.URLLIB.reset(mode="ok", payload=b"[1,2]")
         canary.reset()
         sim.reset(speed=speed, user_kill_at=user_kill_at)
         sim.app = fa
+        sim.page_loads_during_run = page_loads
         server_out = world.RecordingStdout()
         old_cwd, old_out = os.getcwd(), sys.stdout
         os.chdir(fa.__scratch__)
         sys.stdout = server_out
         try:
-            page = fa.index()
-            session = page["session"]
+            if not (same_tab and tab["session"]):
+                tab["session"] = fa.index()["session"]
+            session = tab["session"]
             sim.session = session
+            if late_kill_first:
+                # the user presses "kill" after the previous run of this tab is already over
+                fa.request.form = {"session": session}
+                fa.kill()
             fa.request.form = dict(flags=flags + tflag, code=text, inputs="\n".join(inputs), header="", footer="",
                                    session=session)
             resp = fa.execute()
         finally:
             sys.stdout = old_out
             os.chdir(old_cwd)
-            fa.sessions.clear()
-            fa.terminated.clear()
         proc = sim.procs[-1] if sim.procs else None
         return resp, proc
 
+    def cleanup():
+        fa.sessions.clear()
+        fa.terminated.clear()
+
+    scenario = case.get("scenario", "single")
+    cov.add("scenario:" + scenario)
     # fault-free request: a fast child finishes well inside the timeout
     try:
-        resp0, p0 = request(10 ** 9, None)
+        resp0, p0 = request(10 ** 9, None, page_loads=(case.get("page_loads", 0) if scenario == "page_loads" else 0))
     except Exception as e:
-        return fail("handler-raised", f"flask_app.execute raised {type(e).__name__}: {e}")
+        cleanup()
+        return fail("handler-raised", f"flask_app.execute raised {type(e).__name__}: {e}"
+                                      + (f" ({case.get('page_loads')} page loads arrived during the run)" if scenario == "page_loads" else ""))
+    if scenario == "two_runs" and p0 is not None and p0.outcome == "ok":
+        # the same tab runs the same program again: same answer
+        try:
+            resp0b, p0b = request(10 ** 9, None, same_tab=True)
+        except Exception as e:
+            cleanup()
+            return fail("handler-raised", f"second run in the same tab: flask_app.execute raised {type(e).__name__}: {e}")
+        if not case.get("uses_eval") and resp0b.get("stdout") != resp0.get("stdout") and "℅" not in text and "Þ℅" not in text:
+            cleanup()
+            return fail("response-differs", f"second run in the same tab returned {resp0b.get('stdout', '')[:60]!r}, the first "
+                                            f"{resp0.get('stdout', '')[:60]!r}")
     log.append(dict(req="fault-free", child=p0.outcome if p0 else None, stdout=resp0.get("stdout", "")[:100],
                     stderr=resp0.get("stderr", "")[-80:], child_steps=sim.child_steps))
     if p0 is None or p0.outcome in ("budget", "too-big"):
@@ -295,9 +328,13 @@ def run_case(chk, fa, case):
         speed = k / secs
         uk = case.get("user_kill_frac")
         user_at = max(1, min(n0 - 1, int(uk * n0))) if uk is not None else None
+        late = scenario == "late_kill_then_slow"
+        if late:
+            user_at = None
         try:
-            resp1, p1 = request(speed, user_at)
+            resp1, p1 = request(speed, user_at, same_tab=late, late_kill_first=late)
         except Exception as e:
+            cleanup()
             return fail("handler-raised", f"flask_app.execute raised {type(e).__name__}: {e} (slow child)")
         steps_total += sim.child_steps
         faults["timeout_kill" if not sim.user_kill_delivered else "user_kill"] = 1
@@ -318,9 +355,10 @@ def run_case(chk, fa, case):
                     return fail("kill-unreported", f"the user's kill is not named in stderr {err1[-80:]!r}")
             elif "timed out" not in err1:
                 return fail("timeout-unreported", f"the timeout is not named in stderr {err1[-80:]!r}")
-            if sim.kills < 1:
+            if not p1.killed:
                 return fail("child-not-killed", "the child outlived the timeout and was never killed")
             cov.add("killed:" + ("user" if sim.user_kill_delivered else "timeout"))
     cov.add("child:" + p0.outcome.split(":")[0])
+    cleanup()
     return dict(verdict=OK, sig="", log=log, steps=steps_total, cov=sorted(cov), faults=faults, hist=hist,
                 probes={"flask_requests": 1, "canary_run": int(has_canary)})
